@@ -29,10 +29,14 @@ ASSUMPTIONS = ['statements inside the standard library are not preemption points
                'every thread is a fresh thread or a worker serving requests one after another; the application object is the module default app (redirect needs it)']
 
 KINDS = ['echo', 'post', 'raise_resp', 'abort', 'crash', 'nf', 'na', 'big', 'redirect', 'gen', 'multipart', 'json', 'chunked', 'noname_json',
-         'chunked_form', 'echo10', 'redirect10', 'session', 'static', 'static_denied']
+         'chunked_form', 'echo10', 'redirect10', 'session', 'static', 'static_denied', 'logout', 'relogin']
 _APP = {}
 
 
+# kinds whose whole answer is text around the request's marker (no signatures or lengths derived from it)
+MARKER_ONLY_KINDS = ('logout', 'relogin', 'echo', 'echo10', 'redirect', 'redirect10', 'nf', 'na', 'abort', 'raise_resp', 'gen', 'crash', 'static', 'static_denied')
+OWN_TEXT = {'echo': lambda m: 'http://' + m + '.example/echo/', 'echo10': lambda m: 'http://' + m + '.example:8080/echo/', 'redirect': lambda m: 'http://' + m + '.example/to/',
+            'redirect10': lambda m: 'http://' + m + '.example/to/'}
 _STATIC = {}
 
 
@@ -155,6 +159,15 @@ def get_app():
         rs.set_cookie('sess', sess, secret='k')
         return 'session=%r' % (sess,)
 
+    def logout():
+        rs.delete_cookie('sid', path='/')
+        return 'bye ' + rq.query.get('m')
+
+    def relogin():
+        rs.delete_cookie('sid', path='/')
+        rs.set_cookie('sid', 'token-of-' + rq.query.get('m'), path='/', httponly=True)
+        return 'welcome back ' + rq.query.get('m')
+
     # application-wide hooks read and write the shared objects too
     app.add_hook('before_request', lambda: rs.headers.__setitem__('X-Hook-Before', rq.query_string + '@' + rq.path))
     app.add_hook('after_request', lambda: rs.headers.__setitem__('X-Hook-After', rq.method + ' ' + rq.path + '?' + rq.query_string) if rs._headers is not None else None)
@@ -164,6 +177,8 @@ def get_app():
     www = os.path.join(static_root(), 'www')
     app.route('/static/<name:path>', 'GET', lambda name: static_file(name, root=www))
     app.route('/session', 'GET', session)
+    app.route('/logout', 'GET', logout)
+    app.route('/relogin', 'GET', relogin)
     app.route('/mp', 'POST', multipart)
     app.route('/json', 'POST', json_)
     app.route('/echo/<x>', 'GET', lambda x: echo() + '|' + x)
@@ -228,6 +243,8 @@ def make_env(kind, m):
         return make_environ('GET', '/echo/' + m, qs='m=' + m, headers={'X-M': m, 'Cookie': 'c=' + m, 'Host': m + '.example:8080'}, flavour='http10')
     if kind == 'redirect10':
         return make_environ('GET', '/redirect', qs='m=' + m, headers={'Host': m + '.example'}, flavour='http10')
+    if kind in ('logout', 'relogin'):
+        return make_environ('GET', '/' + kind, qs='m=' + m)
     if kind in ('static', 'static_denied'):
         static_files_for(m)
         return make_environ('GET', '/static/ok-' + m + '.txt' if kind == 'static' else '/static/../secret-' + m + '.txt', qs='m=' + m)
@@ -259,6 +276,7 @@ class Lab:
         self.sched = Scheduler(files=[os.path.abspath(__file__)], dirs=[OMBOTT_DIR]).install()
         self.solo = {}
         self.markers = {'warm'}
+        self.norms = {}
         self.ctx = None
         self.points = set()
         # warm-up: lazily loaded templates and caches must not change the step counts between runs
@@ -275,7 +293,7 @@ class Lab:
             res, info = self.sched.run([job(self.app, [(kind, m)])], [])
             assert res[0][0] == 'ok', res
             status = res[0][1][0][0]
-            expect_ok = kind in ('echo', 'post', 'raise_resp', 'gen', 'multipart', 'json', 'chunked', 'redirect', 'chunked_form', 'echo10', 'redirect10', 'session', 'static')
+            expect_ok = kind in ('echo', 'post', 'raise_resp', 'gen', 'multipart', 'json', 'chunked', 'redirect', 'chunked_form', 'echo10', 'redirect10', 'session', 'static', 'logout', 'relogin')
             if expect_ok and not status.startswith(('2', '3')):
                 raise AssertionError(f'harness: kind {kind} is meant to succeed but answers {status} when served alone: {res[0][1][0][2][:200]!r}')
             # the reference itself must be clean: a request served alone cannot carry what earlier requests of this process brought
@@ -286,6 +304,21 @@ class Lab:
                 self.ctx.violation(f'response-of-a-request-served-alone-carries-an-earlier-marker:{kind}',
                                    f'{kind} with marker {m} served alone after requests with markers {sorted(self.markers)}: carries {earlier}: {got[:3]}',
                                    {'unit': {'kind': 'note', 'request': [kind, m], 'earlier_markers': sorted(self.markers)}})
+            # ... it shows the request's own address where the kind echoes it
+            own = OWN_TEXT.get(kind)
+            if own is not None and self.ctx is not None:
+                text = own(m)
+                if text.encode() not in got[2] and not any(text in hv for _, hv in got[1]):
+                    self.ctx.violation(f'response-of-a-request-served-alone-lacks-its-own-address:{kind}', f'{kind} with marker {m}: {text!r} appears nowhere in {got[:3]}',
+                                       {'unit': {'kind': 'note', 'request': [kind, m]}})
+            # ... and a function of its own request: with the marker blanked out, the answers to two requests of one kind are the same text
+            if kind in MARKER_ONLY_KINDS:
+                norm = (got[0], tuple(sorted((hk, hv.replace(m, '@')) for hk, hv in got[1] if hk not in ('Content-Length', 'Last-Modified', 'Date'))), got[2].replace(m.encode(), b'@'))
+                first = self.norms.setdefault(kind, (m, norm))
+                if first[1] != norm and self.ctx is not None:
+                    self.ctx.violation(f'response-of-a-request-served-alone-is-not-a-function-of-that-request:{kind}',
+                                       f'{kind}: with the marker blanked out, the answer for {m} differs from the one for {first[0]}: {norm[:3]} vs {first[1][:3]}',
+                                       {'unit': {'kind': 'note', 'request': [kind, m], 'compared_with_marker': first[0]}})
             self.solo[k] = (res[0][1][0], info['steps'][0])
         return self.solo[k]
 
@@ -327,7 +360,7 @@ class Lab:
 
 PAIRS_QUICK = [('echo', 'echo'), ('echo', 'post'), ('raise_resp', 'echo'), ('crash', 'abort'), ('big', 'big'), ('nf', 'redirect'), ('gen', 'echo'), ('na', 'post'),
                ('multipart', 'json'), ('json', 'echo'), ('chunked', 'chunked'), ('chunked', 'post'), ('noname_json', 'noname_json'), ('multipart', 'multipart'),
-               ('chunked_form', 'chunked_form'), ('chunked_form', 'echo'), ('echo10', 'echo10'), ('redirect10', 'echo10'), ('session', 'session'), ('static', 'static_denied'), ('static', 'static')]
+               ('chunked_form', 'chunked_form'), ('chunked_form', 'echo'), ('echo10', 'echo10'), ('redirect10', 'echo10'), ('session', 'session'), ('static', 'static_denied'), ('static', 'static'), ('logout', 'relogin'), ('relogin', 'relogin')]
 
 
 def one_preemption(ctx, lab, a, b, stride=1):
